@@ -115,11 +115,11 @@ def Dur.Valid (d : Dur) : Prop :=
 def durBuild (d : Dur) : Int × Int :=
   if d.nanos < 0 then (wrapI64 (d.secs - 1), d.nanos + nanosPerSec) else (d.secs, d.nanos)
 
-/-- `duration_from_parts(seconds, nanos)` of std_conv.rs (the repaired F3):
+/-- the sum inside `duration_from_parts(seconds, nanos)` of std_conv.rs (the repaired F3):
 `time::Duration::seconds(seconds).checked_add(time::Duration::nanoseconds(nanos.into()))` with time 0.3 semantics —
 `Duration::nanoseconds(n) = (n / 10⁹, n % 10⁹)` (truncating), `checked_add` adds the parts, re-normalises the signs and
 returns `None` (here: `err`, "duration overflow") when the seconds leave `i64`. -/
-def durFromParts (seconds nanos : Int) : Outcome Dur :=
+def durFromPartsRaw (seconds nanos : Int) : Outcome Dur :=
   let s := seconds + Int.tdiv nanos nanosPerSec
   if s < i64Min ∨ i64Max < s then .err
   else
@@ -129,6 +129,14 @@ def durFromParts (seconds nanos : Int) : Outcome Dur :=
     else if n ≤ -nanosPerSec ∨ (0 < s ∧ n < 0) then
       (if s - 1 < i64Min then .err else .ok ⟨s - 1, n + nanosPerSec⟩)
     else .ok ⟨s, n⟩
+
+/-- `duration_from_parts` as shipped (repair F12 on top of F3): the sum, then
+`ensure!(d.whole_seconds() > i64::MIN || d.subsec_nanoseconds() >= 0, "duration overflow")` — a value that `build()`
+could not re-encode (it borrows one second for a negative sub-second part) is refused. -/
+def durFromParts (seconds nanos : Int) : Outcome Dur :=
+  match durFromPartsRaw seconds nanos with
+  | .ok d => if i64Min < d.secs ∨ 0 ≤ d.nanos then .ok d else .err
+  | o => o
 
 /-- `impl ProtoFmt for time::Duration :: read` on present fields (`time::Utc` adds the result to `UNIX_EPOCH`,
 which is the zero duration). -/
